@@ -36,7 +36,7 @@ Definition below (s : st) : Prop := forall x, next s <= x -> fresh_id x s.
 (* fields a step does not touch *)
 Record same_rest (s s' : st) : Prop := {
   sr_next : next s' = next s; sr_fault : fault s' = fault s; sr_meta : meta s' = meta s;
-  sr_rctx : rctx s' = rctx s; sr_cbs : cbs s' = cbs s
+  sr_rctx : rctx s' = rctx s; sr_cbs : cbs s' = cbs s; sr_cdicts : cdicts s' = cdicts s
 }.
 Record keys_shrink (s s' : st) : Prop := {
   ks_pcache : forall P, mem P (pcache s') = true -> mem P (pcache s) = true;
